@@ -219,6 +219,8 @@ def finish(prop, tier, seed, spec, results, outdir, binary, t0, replay_env=None,
             path = v["replay_path"]
         else:
             b = binary.get(v.get("engine")) if isinstance(binary, dict) else binary
+            # a violation found with another corpus (thorough batches) replays against that corpus' binary
+            b = v.pop("binary", None) or b
             path = confirm_replay(b, v, idx, env=replay_env, extra_args=replay_args)
         k = classify(v, known)
         if k is not None:
